@@ -11,7 +11,7 @@ def handleIdTok (l : Line) : List Verdict :=
     let cookieAcr ← l.str? "cookieacr"
     let now ← l.int? "now"
     let g := fun k => l.get? k
-    let sig ← g "sig"; let iss ← g "iss"; let aud ← g "aud"; let exp ← g "exp"; let iat ← g "iat"; let nbf ← g "nbf"
+    let sig ← g "sig"; let iss ← g "iss"; let audFull ← g "aud"; let aud := (audFull.splitOn "/azp:").headD audFull; let exp ← g "exp"; let iat ← g "iat"; let nbf ← g "nbf"
     let nonce ← g "nonce"; let sub ← g "sub"; let sid ← g "sid"; let acr ← g "acr"
     let created ← l.bool? "created"
     let sesscookie ← l.bool? "sesscookie"
